@@ -115,8 +115,14 @@ func stretch(t *rapid.T, m interface{}) (interface{}, string) {
 	pickArgs := func(minLen int) []model.B {
 		n := rapid.SampledFrom(edgeCnt).Draw(t, "argcnt")
 		args := make([]model.B, n)
+		// sparse: every argument as short as the type allows (many arguments, almost no text)
+		sparse := rapid.Bool().Draw(t, "sparse_args")
 		for i := range args {
-			args[i] = fill(minLen+i%3, '0')
+			if sparse {
+				args[i] = fill(minLen, '0')
+			} else {
+				args[i] = fill(minLen+i%3, '0')
+			}
 		}
 		if n > 0 && rapid.Bool().Draw(t, "edge_arg") {
 			args[rapid.IntRange(0, n-1).Draw(t, "edge_idx")] = fill(rapid.SampledFrom(edgeArgL).Draw(t, "edge_arglen"), 'z')
